@@ -246,8 +246,10 @@ class Out:
                 val = helper.uri(val)
             elif 'HASH' == type_:
                 val = self.ser._hash(val)
-            elif hasattr(val, 'cssText'):
-                val = val.cssText
+            elif (text := getattr(val, 'cssText', None)) is not None:
+                # the property is evaluated once only: serialising nested
+                # values twice per level is exponential in the nesting depth
+                val = text
             elif hasattr(val, 'mediaText'):
                 val = val.mediaText
             elif val in '+>~,:{;)]/=}' and not alwaysS:
@@ -1032,9 +1034,9 @@ class CSSSerializer:
                 type_, val = item.type, item.value
                 if valuesOnly and type_ == cssutils.css.CSSComment:
                     continue
-                elif hasattr(val, 'cssText'):
+                elif (text := getattr(val, 'cssText', None)) is not None:
                     # RGBColor or CSSValue if a CSSValueList
-                    out.append(val.cssText, type_)
+                    out.append(text, type_)
                 else:
                     if val and val[0] == val[-1] and val[0] in '\'"':
                         val = helper.string(val[1:-1])
@@ -1132,9 +1134,9 @@ class CSSSerializer:
 
                 if valuesOnly and type_ == cssutils.css.CSSComment:
                     continue
-                elif hasattr(val, 'cssText'):
+                elif (text := getattr(val, 'cssText', None)) is not None:
                     # RGBColor or CSSValue if a CSSValueList
-                    out.append(val.cssText, type_)
+                    out.append(text, type_)
                 elif type_ == 'CHAR' and val in '-+*/':
                     out.append(val, type_, alwaysS=True)
                 else:
